@@ -42,6 +42,8 @@ def histories(draw):
         else:
             ops.append({"op": k})
     cfg["ops"] = ops
+    if not ens and cfg["T"] in (0.5, 2.0, 3.0, 10.0, 50.0) and draw(st.booleans()):
+        cfg["prec"] = {"T": draw(st.sampled_from(["numpy", "float32", "float16"]))}     # the temperature as a numpy scalar of some width
     cfg["max_attempts"] = draw(st.sampled_from([None, None, 1, 2, 3]))   # ensemble / HMC public attribute: failed updates become frequent
     return cfg
 
@@ -143,6 +145,11 @@ def body_history(case, ctx):
                         ch.advance(1)
                     else:
                         ch.take_step()
+                        # the caller looks at the current point and goes on computing with the array it got
+                        if hasattr(ch, "get_last"):
+                            cur = ch.get_last()
+                            if isinstance(cur, np.ndarray) and cur.flags.writeable:
+                                cur += 10.0
                     stepped_main = True
                 elif op["op"] == "advance":
                     ch.advance(op["m"])
